@@ -89,6 +89,8 @@ func (o *Options) Apply(r record.Record) {
 		r.Meta().SetAbsoluteExpiry(o.AlwaysSetAbsoluteExpiry)
 	} else if o.AlwaysSetRelativateExpiry > 0 {
 		r.Meta().SetRelativateExpiry(o.AlwaysSetRelativateExpiry)
+		// A relative expiry takes effect when the metadata is updated.
+		r.Meta().Update()
 	}
 }
 
@@ -472,6 +474,8 @@ func (i *Interface) SetRelativateExpiry(key string, duration int64) error {
 	before := *r.Meta()
 	i.options.Apply(r)
 	r.Meta().SetRelativateExpiry(duration)
+	// A relative expiry takes effect when the metadata is updated.
+	r.Meta().Update()
 	return putChanged(db, r, before)
 }
 
